@@ -223,7 +223,7 @@ def render(case):
     tile_kind = case[5] if len(case) > 5 else "alloc"
     L = []
     P = "      "
-    ty = lambda v: (TILE if tile_kind in ("alloc", "global") else SUB) if v.startswith("%t") else SUB
+    ty = lambda v: (TILE if tile_kind in ("alloc", "global", "loopalloc") else SUB) if v.startswith("%t") else SUB
     for ops in stages:
         for o in ops:
             if o[0] == "idxop":
@@ -260,6 +260,11 @@ def render(case):
     else:
         allocs = f"    %scratch = memref.alloc() : memref<{NT * len(tiles)}xi32>\n" + "\n".join(
             f"    {t} = memref.subview %scratch[{NT * k}] [{NT}] [1] : memref<{NT * len(tiles)}xi32> to {SUB}" for k, t in enumerate(tiles))
+    loop_allocs = ""
+    if tile_kind == "loopalloc":
+        # temporaries allocated anew in every iteration, next to the index computations
+        loop_allocs = "\n".join(f"      {t} = memref.alloc() : {TILE}" for t in tiles) + "\n"
+        allocs = ""
     extra = case[6] if len(case) > 6 else None
     # a second, barrier-free loop in the same function that shares the bound constants with the pipelined one
     other = f"""    scf.for %j = %l to %u step %s {{
@@ -284,7 +289,7 @@ builtin.module {{
       %sa = memref.subview %A[%off] [{NT}] [1] : {BIG} to {SUB}
       %sb = memref.subview %B[%off] [{NT}] [1] : {BIG} to {SUB}
       %sc = memref.subview %C[%off] [{NT}] [1] : {BIG} to {SUB}
-{chr(10).join(L)}
+{loop_allocs}{chr(10).join(L)}
     }}
 {post_loop}    func.return
   }}
@@ -474,6 +479,8 @@ def run(chk):
         for loop in [("const", 0, n_, 1) for n_ in range(0, 6)] + [("sym_ub",)]:
             for tk in ("alloc", "view", "global") if nm in ("skip3", "feedback2", "chain3") else ("alloc",):
                 cases.append((S_, tiles_, stages_, loop, NT, tk))
+            if nm in ("chain3", "skip3") and loop[0] == "const" and loop[2] in (2, 4, 5):
+                cases.append((S_, tiles_, stages_, loop, NT, "loopalloc"))
             if nm == "chain3" and loop[0] == "const" and loop[2] in (0, 2, 4):
                 for extra in ("after", "before"):
                     cases.append((S_, tiles_, stages_, loop, NT, "alloc", extra))
